@@ -131,14 +131,26 @@ theorem skip_limit_infix (o : Val) (docs out : List Val) :
   ⟨Pipe.Proofs.skipStage_suffix o docs out, Pipe.Proofs.limitStage_prefix o docs out⟩
 
 /-- **count_eq_length.** `$count: name` answers one document `{name: len(input)}` — the number
-    `count_documents({})` computes (`countDocuments n 0 absent = n`). -/
+    `count_documents({})` computes (`countDocuments n 0 absent = n`) — and NO document when there
+    is no input. -/
 theorem count_eq_length (o : Val) (docs out : List Val) (h : Pipe.countStage o docs = .ok out) :
-    ∃ s, o = .str s ∧ out = [.doc [(s, .int docs.length)]] ∧
+    ∃ s, o = .str s ∧ out = (if docs.isEmpty then [] else [.doc [(s, .int docs.length)]]) ∧
       countDocuments docs.length 0 .absent = .ok (docs.length : Int) := by
   obtain ⟨s, h1, h2⟩ := Pipe.Proofs.countStage_ok o docs out h
   exact ⟨s, h1, h2, by simp [countDocuments]⟩
 
-example : isOk (Pipe.countStage (.str "n") sample) = true := by decide +kernel
+example : isOk (Pipe.countStage (.str "n") sample) = true ∧
+    isOk (Pipe.countStage (.str "n") []) = true := by decide +kernel
+
+/-- … and on an accepted name the stage IS the oracle's `$count`, the empty input included -/
+theorem count_eq_spec (s : String) (docs : List Val) (hn : countName s = true) :
+    Pipe.countStage (.str s) docs =
+      .ok (if docs.isEmpty then [] else [.doc [(s, .int docs.length)]]) ∧
+    specStage "$count" (.str s) docs =
+      some (if docs.isEmpty then [] else [.doc [(s, .int docs.length)]]) :=
+  ⟨Pipe.Proofs.count_eq_spec s docs hn, by simp [specStage, hn]⟩
+
+example : countName "n" = true := by decide +kernel
 
 /-- **project_eq_find_projection.** On a plain inclusion / exclusion specification the `$project`
     stage is `aggProject` (for every list of documents), hence — on the common domain of the two
@@ -449,11 +461,12 @@ def stage_eq_spec_full : Prop :=
   ∀ (op : String) (opts : Val) (docs : List Val),
     agreeB (Pipe.simpleStage ⟨[]⟩ op opts docs) (specStage op opts docs) = true
 
-/-- False of the code as it stands (known finding `countempty`): `$count` over no documents
-    returns `{n: 0}`; MongoDB returns no document. -/
+/-- False of the code as it stands — no longer through a class of this property's own (`$count`
+    over no documents, `countempty`, is repaired) but through the query rules the `$match` oracle
+    is built from (C01's known finding `boolnum`: `{a: 1}` selects `{a: true}`, Python `==`). -/
 theorem stage_eq_spec_full_fails : ¬ stage_eq_spec_full := by
   intro h
-  have := h "$count" (.str "n") []
+  have := h "$match" (.doc [("a", .int 1)]) [.doc [("a", .bool true)]]
   revert this
   decide +kernel
 
